@@ -1776,6 +1776,146 @@ def post_lift(body, inl):
 
 # ------------------------------------------------------------------------------------------------ driver
 
+def eliminate_local_memos(body, facts, memo=None):
+    """N6: a function-local one-entry memo around a lookup
+
+        bool have = false; K last_key; V last_val;                       (declared in an enclosing scope S)
+        ...  if (!have || key != last_key) { A..; last_key = key; last_val = E; have = true; }   use(last_val)
+
+    is the lookup itself (`A..; use(E)`) when nothing the lookup reads is written anywhere in S and the three memo variables
+    are touched nowhere else.  Rewriting it that way lets the rules see where the value comes from.  Returns the number of
+    memos removed."""
+    removed = 0
+    decl_block = {}
+    for b in walk(body):
+        if b.get("k") == "Block":
+            for st in b.get("s", []):
+                if isinstance(st, dict) and st.get("k") == "Decl":
+                    for v in st.get("vars", []):
+                        if "id" in v:
+                            decl_block[v["id"]] = (b, st, v)
+
+    def local_id(e):
+        u = unwrap(e)
+        if isinstance(u, dict) and u.get("k") == "Ref" and u.get("d") == "local":
+            return u.get("id")
+        return None
+
+    def refs(n, vid):
+        return [x for x in walk(n) if x.get("k") == "Ref" and x.get("d") == "local" and x.get("id") == vid]
+
+    for B in [b for b in walk(body) if b.get("k") == "Block"]:
+        sts = B.get("s", [])
+        for idx, I in enumerate(list(sts)):
+            if not (isinstance(I, dict) and I.get("k") == "If" and I.get("else") is None and I.get("condvar") is None):
+                continue
+            c = unwrap(I.get("cond"))
+            if not (isinstance(c, dict) and c.get("k") == "Bin" and c.get("op") == "||"):
+                continue
+            flag = keyv = key = None
+            for side in (c["lhs"], c["rhs"]):
+                u = unwrap(side)
+                if isinstance(u, dict) and u.get("k") == "Un" and u.get("op") == "!" and local_id(u.get("e")) is not None:
+                    flag = local_id(u["e"])
+                elif isinstance(u, dict) and u.get("k") == "Bin" and u.get("op") == "!=":
+                    if local_id(u["rhs"]) is not None and local_id(u["rhs"]) in decl_block:
+                        keyv, key = local_id(u["rhs"]), u["lhs"]
+                    if local_id(u["lhs"]) is not None and keyv is None:
+                        keyv, key = local_id(u["lhs"]), u["rhs"]
+            if flag is None or keyv is None or key is None or flag not in decl_block or keyv not in decl_block:
+                continue
+            T = ir.stmts(I.get("then"))
+            A, stores = [], {}
+            for t in T:
+                u = unwrap(t)
+                if isinstance(u, dict) and u.get("k") == "Bin" and u.get("op") == "=" and local_id(u.get("lhs")) is not None and \
+                        local_id(u["lhs"]) in decl_block and decl_block[local_id(u["lhs"])][0] is not I.get("then"):
+                    stores[local_id(u["lhs"])] = u["rhs"]
+                else:
+                    A.append(t)
+            if flag not in stores or keyv not in stores or len(stores) != 3:
+                continue
+            val = [k_ for k_ in stores if k_ not in (flag, keyv)][0]
+            if ir.const_value(stores[flag]) not in (1, True) or ir.show(stores[keyv]) != ir.show(key):
+                continue
+            E = stores[val]
+            # the stores come last, in the then-branch's own list
+            if any(unwrap(t).get("k") == "Bin" and local_id(unwrap(t).get("lhs")) in stores for t in T[:len(A)] if isinstance(unwrap(t), dict)):
+                continue
+            # memo variables: declared outside B's then-branch, initial flag false, no other write, reads where expected
+            fb, fst, fv = decl_block[flag]
+            if fv.get("init") is None or ir.const_value(fv["init"]) not in (0, False):
+                continue
+            ok = True
+            for vid in (flag, keyv, val):
+                for x, parents in ir.walk_with_parents(body):
+                    if not (x.get("k") == "Ref" and x.get("d") == "local" and x.get("id") == vid):
+                        continue
+                    par = parents[-1] if parents else None
+                    in_I = any(p_ is I for p_ in parents)
+                    if vid in (flag, keyv) and not in_I:
+                        ok = False
+                    if vid == val and not in_I:
+                        # a read after I inside B
+                        top = [p_ for p_ in parents if any(p_ is s_ for s_ in sts)]
+                        if not top or sts.index(top[0]) <= idx:
+                            ok = False
+                        if isinstance(par, dict) and ((par.get("k") == "Bin" and par.get("op", "").endswith("=") and par["op"] not in ("==", "!=", "<=", ">=") and unwrap(par.get("lhs")) is x)
+                                                      or (par.get("k") == "Un" and par.get("op") in ("pre++", "post++", "pre--", "post--", "&"))):
+                            ok = False
+                    if in_I and vid == val and not any(x is y for y in walk(I.get("then"))):
+                        ok = False
+            if not ok or any(refs(E, v_) for v_ in (flag, keyv, val)) or any(refs(a_, v_) for a_ in A for v_ in (flag, keyv, val)):
+                continue
+            # stability: what the lookup reads is written nowhere in the scope of the flag
+            own = set()
+            for a_ in A:
+                for x in walk(a_):
+                    if x.get("k") == "Decl":
+                        for v in x.get("vars", []):
+                            own.add("l:%s#%s" % (v.get("n"), v.get("id")))
+            read_roots = set()
+            for part in A + [E]:
+                for x in walk(part):
+                    p_ = path(x) if x.get("k") in ("Ref", "Member", "This") else None
+                    if p_ and p_[0] not in own:
+                        read_roots.add(p_[0])
+            key_roots = set(path(x)[0] for x in walk(key) if x.get("k") in ("Ref", "Member") and path(x))
+            scope = fb.get("s", [])
+            scope = scope[[i for i, s_ in enumerate(scope) if s_ is fst][0] + 1:]
+            written = set()
+            for s_ in scope:
+                for x in walk(s_):
+                    if any(x is y for a_ in A for y in walk(a_)):
+                        continue
+                    for wp, how in node_writes(x, facts, memo if memo is not None else {}):
+                        written.add(wp[0] if wp else "*")
+                    # a local declared inside the scope takes a new value every time round: not stable either
+                    if x.get("k") == "Decl":
+                        for v in x.get("vars", []):
+                            written.add("l:%s#%s" % (v.get("n"), v.get("id")))
+                    if x.get("k") == "RangeFor" and isinstance(x.get("var"), dict):
+                        written.add("l:%s#%s" % (x["var"].get("n"), x["var"].get("id")))
+            if "*" in written or (read_roots - key_roots) & written:
+                continue
+            # rewrite
+            E2 = E
+            new_sts = sts[:idx] + A + sts[idx + 1:]
+
+            def rep(n):
+                if isinstance(n, list):
+                    return [rep(y) for y in n]
+                if not isinstance(n, dict):
+                    return n
+                if n.get("k") == "Ref" and n.get("d") == "local" and n.get("id") == val:
+                    return copy.deepcopy(E2)
+                return {kk: (rep(v) if isinstance(v, (dict, list)) else v) for kk, v in n.items()}
+            B["s"] = new_sts[:idx + len(A)] + [rep(s_) for s_ in new_sts[idx + len(A):]]
+            removed += 1
+            break
+    return removed
+
+
 def split_postinc_deref(body):
     """N5: `use(*p++);` is `use(p[0]); p++;` when `*p++` is the only mention of p in the statement (expression statements and
     single-variable declarations; returns and conditions keep their spelling).  Returns the number of rewrites."""
@@ -1928,6 +2068,7 @@ def normalise(facts, do_inline=True, do_propagate=True):
                     f["body"] = copy.deepcopy(f["body"])
                 substitute_named_constants(f["body"], facts)
                 stats["split_postinc"] = stats.get("split_postinc", 0) + split_postinc_deref(f["body"])
+                stats["memos_removed"] = stats.get("memos_removed", 0) + eliminate_local_memos(f["body"], facts, memo)
                 stats["propagated_uses"] += propagate(f["body"], facts, memo)
                 stats["projected"] = stats.get("projected", 0) + project_aggregates(f["body"], facts)
                 fold_constants(f["body"], facts.enums)
